@@ -248,6 +248,7 @@ pub fn run_scenario<F: Flav>(sc: &Scenario, rep: &mut Report) -> Vec<String> {
     let mut rest: Vec<usize> = (0..hs.len()).filter(|i| !order.contains(i)).collect();
     let mut full = order;
     full.append(&mut rest);
+    let mut poked = false;
     for (step, hi) in full.iter().enumerate() {
         // drop one handle
         let h = hs[*hi].take();
@@ -280,6 +281,53 @@ pub fn run_scenario<F: Flav>(sc: &Scenario, rep: &mut Report) -> Vec<String> {
                         }
                     }
                     rep.count("reads_through_surviving_handles");
+                }
+            }
+        }
+        // once some nodes are gone, survivors may still list them.  Touching such an entry may fail (the library
+        // panics on a dangling neighbour), but it must never hand out a node whose value has already been released
+        {
+            let total = hs.len();
+            let some_orig_gone = hs[total - n_orig..].iter().any(|h| h.is_none());
+            // (a panic costs ~0.2 s under Miri: there the survivors are poked after the first partial drop only)
+            if some_orig_gone && !(cfg!(miri) && poked) {
+                poked = true;
+                for other in hs.iter().flatten() {
+                    let H::Node(nd) = other else { continue };
+                    let me = F::key(nd);
+                    let released = |k: K| insts.get(k as usize).map(|i| reg.drop_count(*i) != 0).unwrap_or(false);
+                    let mut bad: Vec<K> = vec![];
+                    for dir in 0..2 {
+                        if let Ok(es) = catch(|| if dir == 0 { F::iter_out(nd) } else { F::iter_in(nd) }) {
+                            for e in es {
+                                let ks = [F::key(F::e_src(&e)), F::key(F::e_dst(&e))];
+                                if ks.iter().any(|k| released(*k)) {
+                                    bad.extend(ks.iter().filter(|k| released(**k)));
+                                    // never run the destructor of a handle to a released value
+                                    std::mem::forget(e);
+                                }
+                            }
+                        }
+                    }
+                    for k in 0..n_orig as K {
+                        for dir in 0..2 {
+                            if let Ok(Some(h)) = catch(|| if dir == 0 { F::find_out(nd, &k) } else { F::find_in(nd, &k) }) {
+                                if released(F::key(&h)) {
+                                    bad.push(F::key(&h));
+                                    std::mem::forget(h);
+                                }
+                            }
+                        }
+                    }
+                    rep.count("pokes_of_survivors_after_partial_drop");
+                    if !bad.is_empty() {
+                        bad.sort();
+                        bad.dedup();
+                        msgs.push(format!(
+                            "after dropping a {} (step {}), live node {} hands out node(s) {:?} whose value was already released",
+                            kind, step, me, bad
+                        ));
+                    }
                 }
             }
         }
